@@ -203,7 +203,7 @@ def _map_cyclic(x: numpy.ndarray, lbound: float, ubound: float) -> numpy.ndarray
             f"less than ubound ({ubound})."
         )
 
-    x = numpy.copy(x)
+    x = numpy.array(x, dtype=float)  # (a copy; wrapped values are not integral)
     x[x > ubound] = lbound + (x[x > ubound] - ubound) % (ubound - lbound)
     x[x < lbound] = ubound - (lbound - x[x < lbound]) % (ubound - lbound)
 
